@@ -116,7 +116,13 @@ func (s *state) gwStep(f []string) (string, bool) {
 			ms.ports = append(ms.ports, atoi(p))
 		}
 		g.svcs = append(g.svcs, ms)
-		s.services[host.Name(ms.host)] = ms.real()
+		// a hostname may be registered in several namespaces: destinations of a VirtualService resolve to the service of
+		// the VirtualService's own namespace if there is one (specCluster)
+		if s.servicesNs[ms.host] == nil {
+			s.servicesNs[ms.host] = map[string]*model.Service{}
+			s.services[host.Name(ms.host)] = ms.real()
+		}
+		s.servicesNs[ms.host][ms.ns] = ms.real()
 		g.drop()
 		return "ok", true
 	case "gateway": // a further Gateway resource selecting the same router
@@ -151,10 +157,23 @@ func (s *state) gwStep(f []string) (string, bool) {
 		if g.cg == nil {
 			g.fl = &failer{}
 			var svcs []*model.Service
-			for i := range g.svcs {
-				svcs = append(svcs, g.svcs[i].real())
-			}
 			var cfgs []config.Config
+			for i := range g.svcs {
+				ms := g.svcs[i]
+				if strings.HasSuffix(ms.host, ".svc.cluster.local") {
+					svcs = append(svcs, ms.real())
+					continue
+				}
+				// mesh-external hosts are real ServiceEntry resources, so that one hostname can exist in several namespaces
+				se := &networking.ServiceEntry{Hosts: []string{ms.host}, Resolution: networking.ServiceEntry_DNS, Location: networking.ServiceEntry_MESH_EXTERNAL}
+				for _, p := range ms.ports {
+					se.Ports = append(se.Ports, &networking.ServicePort{Number: uint32(p), Name: "http-" + strconv.Itoa(p), Protocol: "HTTP"})
+				}
+				cfgs = append(cfgs, config.Config{
+					Meta: config.Meta{GroupVersionKind: gvk.ServiceEntry, Name: "se" + strconv.Itoa(i), Namespace: ms.ns, CreationTimestamp: time.Unix(int64(900+i), 0)},
+					Spec: se,
+				})
+			}
 			for i, gd := range g.gws {
 				cfgs = append(cfgs, gd.config(i))
 			}
@@ -469,13 +488,21 @@ func genGw(seed uint64, n int, out string) {
 		o.Line("case", strconv.Itoa(i), "gw")
 		nss := []string{"istio-system", "default", "other"}
 		proxyNs := wire.Pick(r, nss[:2])
+		apiNs := map[string]bool{}
 		for _, ms := range []meshSvc{{host: "reviews.default.svc.cluster.local", ns: "default", ports: []int{9080}},
 			{host: "ratings.default.svc.cluster.local", ns: "default", ports: []int{8080, 9080}},
-			{host: "api.example.com", ns: "other", ports: []int{443}}} {
+			{host: "api.example.com", ns: "other", ports: []int{443}},
+			// the same ServiceEntry hostname in a second (and third) namespace, on another port: a VirtualService's
+			// destination means the service of ITS namespace
+			{host: "api.example.com", ns: "default", ports: []int{8443}},
+			{host: "api.example.com", ns: "istio-system", ports: []int{9443}}} {
 			if r.Chance(2, 3) {
 				f := []string{"gsvc", wire.Enc(ms.host), wire.Enc(ms.ns), wire.EncList(intsToStrs(ms.ports))}
 				s.gwStep(f)
 				o.Line(f...)
+				if ms.host == "api.example.com" {
+					apiNs[ms.ns] = true
+				}
 			}
 		}
 		sel := []kv{{"istio", "ingressgateway"}}
@@ -644,6 +671,15 @@ func genGw(seed uint64, n int, out string) {
 										delete(m.WithoutHeaders, k)
 									}
 								}
+							}
+						}
+					}
+					// which of several same-named services a VirtualService of a THIRD namespace means is not specified:
+					// there the destination names its port
+					if len(apiNs) > 1 && !apiNs[s.cfg.Namespace] {
+						for _, d := range h.Route {
+							if d.Destination.Host == "api.example.com" && d.Destination.Port == nil {
+								d.Destination.Port = &networking.PortSelector{Number: 443}
 							}
 						}
 					}
